@@ -1022,18 +1022,25 @@ def _split_model(ctx, s, sep, maxsplit):
     known = ctx.ghost.get('joined', {}).get(id(s))
     if known is not None and known[0] == sep:
         return list(known[1])
+    # unknown structure: s == p0 sep p1 [sep p2] for fresh sep-free pieces (a word equation; no index arithmetic)
     sp = z3.StringVal(sep)
-    pieces, rest = [], s.t
-    for _ in range(2):
-        if not ctx.branch(z3.Contains(rest, sp), 'split%s:another-piece' % sep):
-            break
-        i = z3.IndexOf(rest, sp, 0)
-        pieces.append(z3.SubString(rest, 0, i))
-        rest = z3.SubString(rest, i + 1, z3.Length(rest))
-    else:
-        ctx.assume(mk_bool(z3.Not(z3.Contains(rest, sp))))  # BOUND on the number of pieces
-    pieces.append(rest)
-    return [mk_str(p, s.kind) for p in pieces]
+    n = 1
+    while n < 3 and ctx.branch(z3.Contains(s.t, sp) if n == 1 else z3.Contains(tail.t, sp), 'split%s:another-piece' % sep):
+        if n == 1:
+            head, tail = ctx.fresh_str('piece'), ctx.fresh_str('rest')
+            ctx.assume(mk_bool(z3.And(s.t == z3.Concat(head.t, sp, tail.t), z3.Not(z3.Contains(head.t, sp)))))
+            pieces = [head]
+        else:
+            head, tail2 = ctx.fresh_str('piece'), ctx.fresh_str('rest')
+            ctx.assume(mk_bool(z3.And(tail.t == z3.Concat(head.t, sp, tail2.t), z3.Not(z3.Contains(head.t, sp)))))
+            pieces.append(head)
+            tail = tail2
+        n += 1
+    if n == 1:
+        return [s]
+    if n == 3:
+        ctx.assume(mk_bool(z3.Not(z3.Contains(tail.t, sp))))  # BOUND on the number of pieces
+    return pieces + [tail]
 
 
 def _parser_setup(reg, ex):
@@ -1669,8 +1676,9 @@ TRUSTED = [
 ]
 KILLS = [
     # --- parser -------------------------------------------------------------------------------------------------
-    # split at the LAST '=' instead of the first
-    ('falcon/util/uri.py', "        k, _, v = field.partition('=')\n", "        k, _, v = field.rpartition('=')\n", 'parse_query_string#mapping-equals-the-reference-reading'),
+    # split('=') semantics instead of partition: the value is cut at a second '='
+    ('falcon/util/uri.py', "        k, _, v = field.partition('=')\n", "        k, _, v = field.partition('=')\n        v = v.partition('=')[0]\n",
+     'parse_query_string#mapping-equals-the-reference-reading'),
     # keep_blank polarity
     ('falcon/util/uri.py', '        if not v and (not keep_blank or not k):\n', '        if not v and (keep_blank or not k):\n', 'parse_query_string#mapping-equals-the-reference-reading'),
     # decode before the comma split: an escaped comma becomes a delimiter
